@@ -195,3 +195,15 @@ func (w *World) BVLemmas() []*Obligation {
 }
 
 var _ = fmt.Sprint
+
+// MemLemmas: each word-level memory axiom, proved against the byte-level definitions.
+func MemLemmas() []*Obligation {
+	var out []*Obligation
+	for i, ax := range memAxioms() {
+		raw := "(set-logic ALL)\n" + rawDefs + "(assert (not " + ax + "))\n(check-sat)\n"
+		// strip patterns (the negated axiom is skolemised; patterns are irrelevant)
+		out = append(out, &Obligation{Name: fmt.Sprintf("memlemma/%02d", i), Kind: "memlemma", Raw: raw, Expect: "unsat",
+			Note: "word-level memory axiom proved from the little-endian byte definitions: " + ax})
+	}
+	return out
+}
